@@ -128,6 +128,22 @@ def deep():
     return o
 
 
+def huge(ct, opt, n, pages, rgs, om, codec='unc'):
+    """read_batch(k) / skip(k) with k >= rows up to INT64_MAX"""
+    d = ['-DMODE=4', '-DH_CT=%d' % ct, '-DH_OPT=%d' % opt, '-DOPENMODE=%d' % om, '-DCODEC=' + CODECS[codec]] + layout_defs(n, pages, rgs)
+    nm = 'huge-count/%s/%s/%s/%s' % (tname(ct, opt), layout_tag(n, pages, rgs), codec, {0: 'buffer', 1: 'stdio', 2: 'mmap', 4: 'anyio'}[om])
+    return E2(nm, H, defines=d, all_lib=True, timeout=900, stubs=STUBS, max_paths=20000, fork_max=8,
+              bounds='column %s %s (concrete content) + INT32 REQUIRED id, %s, %s; column reader of a symbolically chosen row group, optionally after a read of 2 rows: read_batch(k) or skip(k) with k in {2^31-1, 2^31, 2^31+3, 2^32, 2^32+2, INT64_MAX} and one SYMBOLIC 64-bit k in [rows, INT64_MAX] (the engine follows representative values where k reaches a size); the value / level buffers are sized for the rows that exist (rows+1), i.e. for min(k, remaining) values, which is all a correct implementation may write; asserted: return value == remaining, content, remaining() == 0, has_next false, a further read returns 0, termination (step bound); open via %s'
+                     % (TN[ct], 'OPTIONAL' if opt else 'REQUIRED', layout_txt(n, pages, rgs), codec, MODES[om]) + OUTSIDE)
+
+
+def huges(tier):
+    o = [huge(1, 0, 9, [1, 2, 3, 2, 1], None, 0), huge(1, 1, 9, 3, None, 1)]
+    if tier != 'quick':
+        o += [huge(2, 1, 10, [2, 3], [5, 1, 4], 2), huge(5, 1, 9, [1, 2, 3, 2, 1], None, 4), huge(0, 1, 9, 3, [6, 3], 1, codec='snappy'), huge(6, 0, 9, [4, 1, 4], None, 2), huge(4, 0, 16, [5, 1, 7, 3], None, 0)]
+    return o
+
+
 HB = 'harness/e2/c02_big.c'
 BIGOUT = '; outside: symbolic content, other types, compressed pages, more rows than stated'
 
@@ -171,5 +187,5 @@ def big(tier):
 
 def obligations(tier):
     if tier == 'quick':
-        return legacy('thorough') + big('quick')
-    return legacy('thorough') + deep() + big('thorough')
+        return legacy('thorough') + big('quick') + huges('quick')
+    return legacy('thorough') + deep() + big('thorough') + huges('thorough')
